@@ -262,7 +262,8 @@ func validShapes(cmd string, p pick) [][]string {
 			{"SET", k, id, "NX", "POINT", "1", "2"}, {"SET", k, "newid", "XX", "POINT", "1", "2"}, {"SET", p.key(), "i", "STRING", p.of(nasty, "v")},
 			{"SET", k, id, "EX", "50", "BOUNDS", "1", "2", "3", "4"}, {"SET", k, id, "HASH", "9tbnthx"}, {"SET", k, "o", "OBJECT", `{"type":"Point","coordinates":[5,6,7]}`},
 			{"SET", k, id, "FIELD", "a", "1", "FIELD", "b", `{"x":"y"}`, "RETURN", "WITHFIELDS", "POINT", "POINT", "4", "5"},
-			{"SET", k, id, "RETURN", "OBJECT", "POINT", "4", "5"}, {"SET", k, id, "RETURN", "HASH", "5", "WITHFIELDS", "POINT", "4", "5"}, {"SET", k, id, "RETURN", "BOUNDS", "STRING", "zz"}}
+			{"SET", k, id, "RETURN", "OBJECT", "POINT", "4", "5"}, {"SET", k, id, "RETURN", "HASH", "5", "WITHFIELDS", "POINT", "4", "5"}, {"SET", k, id, "RETURN", "BOUNDS", "STRING", "zz"},
+			{"SET", k, "big", "RETURN", "OBJECT", "OBJECT", `{"type":"Point","coordinates":[1e999,-1e999]}`}, {"SET", k, "big2", "RETURN", "POINT", "POINT", "1e308", "1e308", "1e308"}}
 	case "FSET":
 		return [][]string{{"FSET", k, id, f, "12"}, {"FSET", k, id, f, "1", "other", p.of(nasty, "v")}, {"FSET", k, id, "XX", f, "2"},
 			{"FSET", k, "truck1", f, "5", "RETURN", "WITHFIELDS"}, {"FSET", k, id, p.of(nasty, "f"), `{"j":1}`}}
@@ -306,10 +307,12 @@ func validShapes(cmd string, p pick) [][]string {
 		return [][]string{cat("SEARCH", "strs", p.scanOpts(), p.output()), cat("SEARCH", p.key(), p.scanOpts(), p.output()), cat("SEARCH", "strs", "MATCH", "*i*", p.output()), {"SEARCH", "strs", "DESC", "IDS"}}
 	case "NEARBY":
 		return [][]string{cat("NEARBY", k, p.scanOpts(), p.output(), "POINT", "33.5", "-112.1", "90000"), cat("NEARBY", k, "DISTANCE", p.output(), "POINT", "33.5", "-112.1"),
-			cat("NEARBY", k, "LIMIT", "3", "DISTANCE", "IDS", "POINT", "33.5", "-112.1", "1000000"), cat("NEARBY", p.key(), p.output(), "POINT", "10", "20", "500")}
+			cat("NEARBY", k, "LIMIT", "3", "DISTANCE", "IDS", "POINT", "33.5", "-112.1", "1000000"), cat("NEARBY", p.key(), p.output(), "POINT", "10", "20", "500"),
+			cat("NEARBY", k, "DISTANCE", p.output(), "POINT", "nan", "nan"), cat("NEARBY", k, "DISTANCE", p.output(), "POINT", "inf", "1", "inf"), cat("NEARBY", k, "DISTANCE", "LIMIT", "2", "POINT", "33", "-112", "nan")}
 	case "WITHIN", "INTERSECTS":
 		return [][]string{cat(cmd, k, p.scanOpts(), p.output(), p.area()), cat(cmd, k, p.output(), p.area()), cat(cmd, p.key(), p.output(), p.area()),
-			cat(cmd, k, "CLIP", p.output(), "BOUNDS", "33.45", "-112.2", "33.58", "-112.05"), cat(cmd, k, "BUFFER", "100", p.output(), p.area())}
+			cat(cmd, k, "CLIP", p.output(), "BOUNDS", "33.45", "-112.2", "33.58", "-112.05"), cat(cmd, k, "BUFFER", "100", p.output(), p.area()),
+			cat(cmd, k, p.output(), "BOUNDS", "nan", "-inf", "inf", "nan"), cat(cmd, k, p.output(), "CIRCLE", "nan", "1", "inf")}
 	case "TEST":
 		return [][]string{cat("TEST", p.area(), cmdWord(p, "WITHIN", "INTERSECTS"), p.area()), {"TEST", "POINT", "33.5", "-112.1", "INTERSECTS", "CLIP", "BOUNDS", "33", "-113", "34", "-112"},
 			{"TEST", "GET", k, id, "WITHIN", "BOUNDS", "-90", "-180", "90", "180"}}
@@ -342,7 +345,10 @@ func validShapes(cmd string, p pick) [][]string {
 		return [][]string{{cmd, "return 1", "0"}, {cmd, "return {1,'two',{3,KEYS[1]},ARGV[1]}", "1", k, p.of(nasty, "a")}, {cmd, "return tile38.call('get', KEYS[1], ARGV[1])", "1", k, id},
 			{cmd, "return tile38.call('scan', KEYS[1], 'limit', 2)", "1", k}, {cmd, "return nil", "0"}, {cmd, "return true", "0"}, {cmd, "return false", "0"}, {cmd, "return 1.75", "0"},
 			{cmd, "return {ok='fine'}", "0"}, {cmd, "return {err='custom failure'}", "0"}, {cmd, "return tile38.error_reply('E \"q\"')", "0"}, {cmd, "error('boom \"x\"')", "0"}, {cmd, "return ARGV[1]", "0", p.of(nasty, "a")},
-			{cmd, "return tile38.pcall('nosuch')", "0"}, {cmd, "return {a=1}", "0"}, {cmd, "return tile38.sha1hex('x')", "0"}, {cmd, "return {{1,{2,{3}}},'x'}", "0"}}
+			{cmd, "return tile38.pcall('nosuch')", "0"}, {cmd, "return {a=1}", "0"}, {cmd, "return tile38.sha1hex('x')", "0"}, {cmd, "return {{1,{2,{3}}},'x'}", "0"},
+			{cmd, "return 0/0", "0"}, {cmd, "return {1/0, -1/0}", "0"}, {cmd, "return {ok=ARGV[1]}", "0", p.of(nasty, "a")}, {cmd, "return {err=ARGV[1]}", "0", p.of(nasty, "a")},
+			{cmd, "return tostring", "0"}, {cmd, "return {f=tostring}", "0"}, {cmd, "return {[true]=1}", "0"}, {cmd, "return {[2]='x'}", "0"}, {cmd, "return {[1.5]='x'}", "0"}, {cmd, "return {[ARGV[1]]=ARGV[1]}", "0", p.of(nasty, "a")},
+			{cmd, "return tile38.call('nearby', KEYS[1], 'distance', 'point', 33.5, -112.1)", "1", k}, {cmd, "return tile38.error_reply(ARGV[1])", "0", p.of(nasty, "a")}, {cmd, "return tile38.status_reply(ARGV[1])", "0", p.of(nasty, "a")}}
 	case "EVALSHA", "EVALROSHA", "EVALNASHA":
 		return [][]string{{cmd, "0000000000000000000000000000000000000000", "0"}, {cmd, sha1hex("return {ARGV[1], 5}"), "0", p.of(nasty, "a")}}
 	case "SCRIPT LOAD":
@@ -440,6 +446,16 @@ func dangerous(args []string) bool {
 			switch strings.ToLower(args[2]) {
 			case "requirepass", "leaderauth", "protected-mode", "maxmemory":
 				return !(len(args) == 4 && args[3] == "0")
+			}
+		}
+	case "jset":
+		// a long all-digit path component makes sjson build an array of that length: the server
+		// stops answering (observed: JSET users u3 99999999999999999999 v -> no reply in 15 s); not a C17 matter
+		if len(args) > 3 {
+			for _, comp := range strings.Split(args[3], ".") {
+				if isDigits(comp) && len(comp) > 3 {
+					return true
+				}
 			}
 		}
 	case "timeout":
